@@ -19,6 +19,7 @@ LEVEL_TEXT = (
     "states, all five routines (padded scan, unroll, via-JVP, Newton doubling, residual-based with the jet-lifted ODE residual), jit on/off. "
     "The oracle computes the exact Taylor coefficients of the solution with truncated power series over Fractions; the float comparison "
     "uses 256 eps x (sum of absolute terms) from a parallel absolute-value evaluation, so there is no bare relative tolerance."
+    " Implicit problems u' + c u'^3 - P(u, t) = 0 (nonlinear in the highest derivative) are solved with the residual-based routine, with an explicit budget and with its default solver; oracle: the exact 0th..(num-1)th total derivatives of the residual along the returned coefficients vanish."
 )
 LEVEL_NOTE = "Trusted: exact Fraction arithmetic; the residual-based routine is iterative (tolerance 1e-12 requested) and is compared at 1e-7."
 RULE = (
